@@ -1,5 +1,6 @@
 import Driver.Proto
 import PolyVerif.Model.Obj
+import PolyVerif.Model.ObjText
 
 /-!
   Driver for C05 (OBJ).  The text layer (what `bufio.Scanner`, `strings.Fields`, `strconv` do) lives
@@ -13,6 +14,8 @@ import PolyVerif.Model.Obj
 
     c05.write <scene>                 → ok <text> | panic
     c05.read <text>                   → ok <result> | err | panic
+    c05.itoa <int>                    → hex of strconv.Itoa(n)            (model: ObjText.showInt)
+    c05.atoi <hex string>             → ok <n> | err   (strconv.Atoi)     (model: ObjText.parseInt)
     c05.holds.roundtrip <scene> <result>                    → RoundTrips (strict)
     c05.holds.roundtrip_matless_after_mat <scene> <result>  → same predicate (known finding class)
     c05.holds.roundtrip_empty_mesh_not_last <scene> <result>→ same predicate (known finding class)
@@ -185,15 +188,8 @@ def parseF32 (s : String) : Option S := do
   let f := Float.scaleB (Float.ofNat m) e
   some (if neg then (-f).toBits else f.toBits)
 
-/-- `strconv.Atoi` -/
-def atoi (s : String) : Option Int :=
-  let cs := s.toList
-  let (neg, ds) := match cs with
-    | '-' :: r => (true, r)
-    | '+' :: r => (false, r)
-    | _ => (false, cs)
-  if ds.isEmpty || !ds.all isDigit then none
-  else some (if neg then -(digitsVal ds : Int) else (digitsVal ds : Int))
+/-- `strconv.Atoi`: the model function `ObjText.parseInt` (law `parseInt_showInt` proved in Props/C05Text.lean) -/
+def atoi (s : String) : Option Int := ObjText.parseInt s
 
 /-! ### lexer -/
 
@@ -216,27 +212,8 @@ def scanLines (s : String) : List String :=
     | _ => ls
   ls.map fun l => if l.endsWith "\r" then (l.dropEnd 1).toString else l
 
-/-- `parseObjFaceComponent`; the raw ints: negative → panic at the pool lookup -/
-def pcStr (t : String) : Except Err Corner :=
-  let int? (s : String) : Except Err Int := match atoi s with | some i => .ok i | none => .error .err
-  let fin (v : Int) (vt vn : Option Int) : Except Err Corner :=
-    if v < 0 || (vt.any (· < 0)) || (vn.any (· < 0)) then .error .panic
-    else .ok ⟨v.toNat, vt.map Int.toNat, vn.map Int.toNat⟩
-  if !(t.splitOn "/").length > 1 then do
-    let v ← int? t; fin v none none
-  else if (t.splitOn "//").length > 1 then do
-    let parts := t.splitOn "//"
-    let v ← int? (parts.getD 0 "")
-    let p1 := parts.getD 1 ""
-    if (fields p1).isEmpty then fin v none none
-    else do let vn ← int? p1; fin v none (some vn)
-  else do
-    let parts := t.splitOn "/"
-    let v ← int? (parts.getD 0 "")
-    let vt ← int? (parts.getD 1 "")
-    if parts.length == 3 then do
-      let vn ← int? (parts.getD 2 ""); fin v (some vt) (some vn)
-    else fin v (some vt) none
+/-- `parseObjFaceComponent`: the model function `ObjText.parseCorner` (law `parseCorner_showCorner` proved) -/
+def pcStr (t : String) : Except Err Corner := ObjText.parseCorner t
 
 def lexLine (line : String) : Line String S :=
   match fields line with
@@ -276,12 +253,8 @@ def lexText (s : String) : List (Line String S) := (scanLines s).map lexLine
 
 /-! ### printer -/
 
-def printCorner (c : Corner) : String :=
-  match c.vt, c.vn with
-  | none, none => toString c.v
-  | some t, none => s!"{c.v}/{t}"
-  | none, some n => s!"{c.v}//{n}"
-  | some t, some n => s!"{c.v}/{t}/{n}"
+/-- the face-corner token: the model function `ObjText.showCorner` (indices by `ObjText.showNat` = `strconv.Itoa`) -/
+def printCorner (c : Corner) : String := ObjText.showCorner c
 
 def printLine : Line Corner S → String
   | .v p => s!"v {printF p.x} {printF p.y} {printF p.z}"
@@ -424,6 +397,14 @@ def handle (op : String) (args : List String) : Option String := do
       | .ok (gs, libs) => pure ("ok " ++ resultHex gs libs)
       | .error .err => pure "err"
       | .error .panic => pure "panic"
+  | "c05.itoa" =>        -- strconv.Itoa(n) ↔ ObjText.showInt
+      let n ← int? (← args.head?)
+      pure (hexOfStr (ObjText.showInt n))
+  | "c05.atoi" =>        -- strconv.Atoi(s) ↔ ObjText.parseInt
+      let t ← strOfHex (← args.head?)
+      match ObjText.parseInt t with
+      | some n => pure s!"ok {n}"
+      | none => pure "err"
   | "c05.holds.readers_agree" =>
       match args with
       | n :: a :: rest => do
